@@ -34,6 +34,8 @@ func runC16(c *Ctx) {
 	ruleTickPairConsistent(c, "R16.6")
 	ruleClockSource(c, "R16.7") // tick times are readings of the injected clock taken when the tick is emitted
 	ruleServedRoundDatesItself(c, "R16.8")
+	ruleRelayFetchesOnlyDueRounds(c, "R16.10")
+	ruleNoUnsignedConversionOfPastDurations(c, "R16.11")
 	// the gate for partials of future rounds takes "next" from NextRound: before genesis next is not current+1
 	c.ranRules["R16.9"] = true
 	if fn, inj := partialGate(c); c.Anchor("R16.9", "gate function", fn != nil) {
